@@ -17,7 +17,7 @@ func init() {
 				zs = append(zs, [2]int{25, 26})
 			}
 			for _, z := range zs {
-				for op := 0; op <= 8; op++ {
+				for op := 0; op <= 9; op++ {
 					c := cs("op", op, "h", z[0], "v", z[1], "mix", 0)
 					if op == 5 { // merge, mixed precision in the list
 						c = cs("op", 2, "h", z[0], "v", z[1], "mix", 1)
@@ -30,6 +30,13 @@ func init() {
 					}
 					if op == 8 {
 						c = cs("op", 7, "h", z[0], "v", z[1], "mix", 0)
+					}
+					if op == 9 { // zoom-in of a mixed-precision (possibly nested) list to the finer zoom
+						c = cs("op", 9, "h", z[0], "v", z[1], "mix", 1)
+					}
+					c["orders"] = 1
+					if op == 9 {
+						c["orders"] = 0 // 8..16 result keys: beyond the iteration-order bound; order-independence of Unique is shown by the other ops
 					}
 					in := mk("detector", "VerifC16Op", c)
 					in.Unwind = 100
@@ -46,8 +53,8 @@ func init() {
 		},
 		tv: func(tier string, seed int64) []*TV {
 			return []*TV{
-				{Harness: "VerifC16Op", PkgDir: "detector", Unwind: 100, Case: cs("op", 0, "h", 3, "v", 3, "mix", 0), Inputs: map[string]string{"x0": "5", "y0": "2", "f0": "-3", "x1": "4", "y1": "3", "f1": "-4"}},
-				{Harness: "VerifC16Op", PkgDir: "detector", Unwind: 100, Case: cs("op", 2, "h", 3, "v", 3, "mix", 0), Inputs: map[string]string{"x0": "5", "y0": "2", "f0": "-3", "x1": "5", "y1": "2", "f1": "-3"}},
+				{Harness: "VerifC16Op", PkgDir: "detector", Unwind: 100, Case: cs("op", 0, "h", 3, "v", 3, "mix", 0, "orders", 1), Inputs: map[string]string{"x0": "5", "y0": "2", "f0": "-3", "x1": "4", "y1": "3", "f1": "-4"}},
+				{Harness: "VerifC16Op", PkgDir: "detector", Unwind: 100, Case: cs("op", 2, "h", 3, "v", 3, "mix", 0, "orders", 1), Inputs: map[string]string{"x0": "5", "y0": "2", "f0": "-3", "x1": "5", "y1": "2", "f1": "-3"}},
 				{Harness: "VerifC16Tiles", PkgDir: "detector", Unwind: 100, Inputs: map[string]string{"x0": "5", "y0": "2", "z0": "3", "x1": "5", "y1": "2", "z1": "3"}},
 			}
 		},
